@@ -511,6 +511,9 @@ Proof.
   - now apply wf_wire_P.
   - now apply disconnect_run_list_P.
   - now apply pull_P.
+  - unfold remove_by_label. destruct (find _ (children st w)); simpl; auto. now apply node_disconnect_P.
+  - unfold set_parent. destruct (optnat_eqb (parent st n) p); auto.
+    destruct (parent st n) as [w'|]; destruct p as [w|]; simpl; auto; now apply node_disconnect_P.
 Qed.
 
 Lemma exec_P ops st : P (cn st) -> P (cn (exec W st ops)).
@@ -784,6 +787,77 @@ Proof.
 Qed.
 
 
+(* ---- by ANY route: a node that is no longer a child of the composite it was in is
+   referenced by nobody (remove_child by node or label, parent = None, parent = another
+   composite, replace_child; no other op changes a parent) -------------------------------- *)
+Lemma nth_set_nth_neq {A} (l : list A) n k v d : k <> n -> nth k (set_nth l n v) d = nth k l d.
+Proof.
+  revert n k; induction l as [|x r IH]; intros [|n] [|k] H; simpl; auto; congruence.
+Qed.
+
+Definition left_composite (st st' : state) (n : nat) : Prop :=
+  exists w, parent st n = Some w /\ parent st' n <> Some w.
+
+Lemma remove_child_left W st w m n : Inv W (cn st) ->
+  left_composite st (remove_child W st w m) n -> n = m /\ unreferenced W (cn (remove_child W st w m)) n.
+Proof.
+  intros I (w0 & H0 & H1). unfold parent in *. simpl in H1.
+  destruct (Nat.eq_dec n m) as [->|Hn]; [|rewrite nth_set_nth_neq in H1 by auto; congruence].
+  split; auto. simpl. now apply node_disconnect_unreferenced.
+Qed.
+
+Lemma left_same_par st st' n : par st' = par st -> ~ left_composite st st' n.
+Proof. intros E (w & H0 & H1). unfold parent in *. rewrite E in H1. congruence. Qed.
+
+Theorem left_unreferenced W st o st' r n :
+  Inv W (cn st) -> step W st o = (st', r) -> left_composite st st' n -> unreferenced W (cn st') n.
+Proof.
+  intros I H L.
+  assert (Same : par st' = par st -> unreferenced W (cn st') n)
+    by (intros E; exfalso; now apply (left_same_par st st' n E)).
+  destruct o; simpl in H; try (unfold lift in H); try (inversion H; subst; now apply Same).
+  - (* call *) destruct (set_inputs W (cn st) n0 kw) as [s1 [|e]]; [unfold lift in H|];
+      inversion H; subst; now apply Same.
+  - (* remove *) destruct (optnat_eqb (parent st n0) (Some w)); inversion H; subst; [|now apply Same].
+    now apply (remove_child_left W st w n0 n I).
+  - (* add *) destruct (parent st n0) as [w'|] eqn:Ep.
+    + destruct (Nat.eqb w' w); inversion H; subst; now apply Same.
+    + inversion H; subst. exfalso. destruct L as (w0 & H0 & H1). unfold parent in *. simpl in H1.
+      destruct (Nat.eq_dec n n0) as [->|Hn]; [congruence|].
+      rewrite nth_set_nth_neq in H1 by auto. congruence.
+  - (* replace *) unfold replace_child in H.
+    destruct (negb (optnat_eqb (parent st n0) (Some w))); [inversion H; subst; now apply Same|].
+    destruct (negb (optnat_eqb (parent st m) None)) eqn:Em; [inversion H; subst; now apply Same|].
+    destruct (connected W (cn st) m); [inversion H; subst; now apply Same|].
+    pose proof (copy_io_P W (Inv W) (fun s a b => connect1_Inv W s a b) (fun s a b => disc1_Inv W s a b)
+                          m n0 true false false (cn st) I) as I1.
+    destruct (copy_io W m n0 true false false (cn st)) as [s1 [|e]]; inversion H; subst; [|now apply Same].
+    simpl in I1. clear H.
+    destruct L as (w0 & H0 & H1). unfold parent in *. simpl in H1.
+    destruct (Nat.eq_dec n m) as [->|Hm].
+    { apply Bool.negb_false_iff in Em. destruct (nth m (par st) None); simpl in Em; congruence. }
+    rewrite nth_set_nth_neq in H1 by auto.
+    destruct (Nat.eq_dec n n0) as [->|Hn]; [|rewrite nth_set_nth_neq in H1 by auto; congruence].
+    simpl. now apply node_disconnect_unreferenced.
+  - (* wire *) unfold wf_wire in H. destruct (children st w); [|unfold lift in H]; inversion H; subst; now apply Same.
+  - (* run *) unfold wf_wire in H. destruct (children st w); [|unfold lift in H]; inversion H; subst; now apply Same.
+  - (* remove by label *) unfold remove_by_label in H.
+    destruct (find _ (children st w)) as [k|]; inversion H; subst; [|now apply Same].
+    now apply (remove_child_left W st w k n I).
+  - (* parent assignment *) inversion H; subst. clear H. unfold set_parent in *.
+    destruct (optnat_eqb (parent st n0) p); [now apply Same|].
+    destruct (parent st n0) as [w'|] eqn:Ep; destruct p as [w|].
+    + (* hand-over: the node passes through the orphaned, disconnected state *)
+      destruct L as (w0 & H0 & H1). unfold parent in *. simpl in H1.
+      destruct (Nat.eq_dec n n0) as [->|Hn]; [|rewrite !nth_set_nth_neq in H1 by auto; congruence].
+      simpl. now apply node_disconnect_unreferenced.
+    + now apply (remove_child_left W st w' n0 n I).
+    + exfalso. destruct L as (w0 & H0 & H1). unfold parent in *. simpl in H1.
+      destruct (Nat.eq_dec n n0) as [->|Hn]; [congruence|].
+      rewrite nth_set_nth_neq in H1 by auto. congruence.
+    + now apply Same.
+Qed.
+
 (* ---- extra: a failed copy_connections leaves no connection that was not there before ------ *)
 Lemma disconnect_removes W s a bs x : Inv W s -> In x bs -> ~ In x (conns (fst (disconnect s a bs)) a).
 Proof.
@@ -989,6 +1063,11 @@ Lemma reachable_removed_unreferenced W par kids lab ops o st' n :
   end ->
   step W (exec W (init_state W par kids lab) ops) o = (st', Ok) -> unreferenced W (cn st') n.
 Proof. apply removed_unreferenced, reachable_Inv. Qed.
+
+Lemma reachable_left_unreferenced W par kids lab ops o st' r n :
+  let st := exec W (init_state W par kids lab) ops in
+  step W st o = (st', r) -> left_composite st st' n -> unreferenced W (cn st') n.
+Proof. intros st. apply left_unreferenced, reachable_Inv. Qed.
 
 Lemma reachable_failed_copy W par kids lab ops o st' e :
   let st := exec W (init_state W par kids lab) ops in
